@@ -224,7 +224,7 @@ class PkgGen:
             if k>=3:
                 out+='\nlet\n'+'\n'.join(self.bindings(2,1,self.R.randrange(1,4)))+'\nin\n' if self.R.random()<0.7 else 'let\n'+'\n'.join(self.bindings(2,1,self.R.randrange(1,4)))+'\nin\n'
             if k==2: out+='\n'
-            if k==4 and self.R.random()<0.4: out+='assert %s != null;\n'%self.ident()
+            if k==4 and self.R.random()<0.5: out+='assert %s != null;\n'%self.ident() + self.R.choice(['', '\n', '# why\n', '\n# why\n'])
             out+=main
         return out+'\n'
 
